@@ -143,7 +143,7 @@ var defaultInitSkip = []string{
 	"oss.terrastruct.com/d2/lib/pdf", "oss.terrastruct.com/d2/lib/pptx", "oss.terrastruct.com/d2/lib/xgif",
 	"oss.terrastruct.com/util-go/xmain", "oss.terrastruct.com/util-go/cmdlog", "oss.terrastruct.com/util-go/xos",
 	"oss.terrastruct.com/util-go/xexec", "oss.terrastruct.com/util-go/xhttp", "oss.terrastruct.com/util-go/xbrowser",
-	"oss.terrastruct.com/util-go/xrand",
+	"oss.terrastruct.com/util-go/xrand", "oss.terrastruct.com/d2/lib/log", "oss.terrastruct.com/d2/lib/simplelog",
 }
 
 func matchPrefix(path string, list []string) bool {
@@ -405,7 +405,11 @@ func (ex *explorer) runPath(in *interpreter, sol *solver, item workItem) {
 				viol = &Violation{Harness: ex.hc.Func, Msg: p.msg, Draws: ps.currentDraws()}
 			case pathAbort:
 				outcome = p.reason
-				if p.reason == "budget" {
+				if p.reason == "depth" {
+					// unbounded recursion in the code under test: a candidate stack overflow, handled like a candidate hang
+					outcome = "budget"
+				}
+				if outcome == "budget" {
 					// candidate hang: report with the current model
 					if ps.model == nil {
 						func() {
@@ -414,7 +418,11 @@ func (ex *explorer) runPath(in *interpreter, sol *solver, item workItem) {
 						}()
 					}
 					if ps.model != nil {
-						viol = &Violation{Harness: ex.hc.Func, Msg: "instruction budget exceeded (candidate hang)", Draws: ps.currentDraws(), Hang: true}
+						msg := "instruction budget exceeded (candidate hang)"
+						if p.reason == "depth" {
+							msg = "call depth limit exceeded (candidate unbounded recursion)"
+						}
+						viol = &Violation{Harness: ex.hc.Func, Msg: msg, Draws: ps.currentDraws(), Hang: true}
 					}
 				}
 			case engineError:
